@@ -39,6 +39,18 @@ def spec_env():
     }
     env["dnav"] = lambda s, lo=0, hi=None: S.val4(s[lo:len(s) if hi is None else hi])
     env["is_dna"] = lambda s, lo=0, hi=None: all(c in "ACGT" for c in s[lo:len(s) if hi is None else hi])
+    def shuffled_row(seed, v):
+        import numpy
+        numpy.random.seed(seed)
+        card = None
+        for _ in range(v + 1):
+            card = numpy.array([0, 1, 2, 3])
+            numpy.random.shuffle(card)
+        return card
+
+    env["shuffled_row"] = shuffled_row
+    env["row_is"] = lambda m, r, a: [int(x) for x in m[r]] == [int(x) for x in a]
+    env["is_table"] = lambda t, k: t is None or (len(t) == 4 ** k and all(sorted(int(x) for x in row) == [0, 1, 2, 3] for row in t))
     for name in ("succ", "pred", "kmer", "val4", "code", "render", "vt_spec", "is_accessor", "live", "is_walk", "filter_spec", "revcomp"):
         env[name] = getattr(S, name)
     return env
